@@ -228,6 +228,15 @@ func GenRecords(t *rapid.T, n int, base int64, magic int8, holes bool, big bool)
 					hd.Value = []byte{}
 				default:
 					hd.Value = rapid.SliceOfN(rapid.Byte(), 1, 10).Draw(t, "hVal")
+					if big && rapid.IntRange(0, 9).Draw(t, "bigHeader") == 0 {
+						// header values are byte sequences like keys and values: longer than one 64 KiB read unit, too
+						n := rapid.SampledFrom([]int{65535, 65537, 70000, 100000, 140000}).Draw(t, "bigHeaderLen")
+						b := make([]byte, n)
+						for j := range b {
+							b[j] = hd.Value[0] + byte(j*5) + byte(j>>9)
+						}
+						hd.Value = b
+					}
 				}
 				r.Headers = append(r.Headers, hd)
 			}
